@@ -387,8 +387,9 @@ class SqlalchemyRender:
             sa_function = getattr(sa.func, t.op)
         except AttributeError:
             raise NotImplementedError(f'Function name: {t.op}')
-        if not isinstance(sa_function, sa_fnc._FunctionGenerator):
-            # a name like __repr__ or __hash__ resolves to a python attribute of sa.func, not to a sql function
+        if not isinstance(sa_function, sa_fnc._FunctionGenerator) or t.op.rstrip('_') == '':
+            # a name like __repr__ or __hash__ resolves to a python attribute of sa.func, not to a sql function;
+            # sa.func strips a trailing underscore: the function `_` would get the empty name
             raise NotImplementedError(f'Function name: {t.op}')
 
         def op(*args):
